@@ -204,6 +204,34 @@ def decorations(ser, n, nid, rng):
         ('MAND-backref', M.MAND(M.M(**{tname(0): ...}), M.MTAG(tname(0))), ['mand', [[None, ['m', ['wild'], 0, []]], [None, ['ref', 0]]]],
          [[0, node]]),
     ]
+    # the SAME tag name bound deeper in the sub-pattern and by the enclosing combinator: the enclosing binding wins
+    # (`{**m, pat_tag: tgt}`), for every tagging combinator alike
+    out += [
+        ('MOR-same-tag-static', M.MOR(other, **{tname(0): M.M(orig(), **{tname(0): 5})}),
+         ['mor', [[None, ['type', ko]], [0, ['m', P, None, [[0, 5]]]]]], [[0, node]]),
+        ('MAND-same-tag-static', M.MAND(**{tname(0): M.M(orig(), **{tname(0): 5})}), ['mand', [[0, ['m', P, None, [[0, 5]]]]]], [[0, node]]),
+        ('M-same-tag-static', M.M(**{tname(0): M.M(orig(), **{tname(0): 5})}), ['m', ['m', P, None, [[0, 5]]], 0, []], [[0, node]]),
+    ]
+    child = None
+    for f in n._fields:
+        v = getattr(n, f, None)
+        if isinstance(v, list) and v and isinstance(v[0], ast.AST):
+            v = v[0]
+        if isinstance(v, ast.AST) and not isinstance(v, (ast.expr_context, ast.operator, ast.unaryop, ast.cmpop, ast.boolop)):
+            child = v
+            break
+    if child is not None:
+        inner = lambda: clone(n, {id(child): M.M(**{tname(0): clone(child)})})       # noqa: E731
+        J = pat_json(ser, n, {id(child): ['m', pat_json(ser, child), 0, []]})
+        out += [
+            ('inner-child-capture', inner(), J, [[0, ['n', ser.ids[id(child)]]]]),
+            ('M-same-tag-as-child', M.M(**{tname(0): inner()}), ['m', J, 0, []], [[0, node]]),
+            ('MOR-same-tag-as-child', M.MOR(other, **{tname(0): inner()}), ['mor', [[None, ['type', ko]], [0, J]]], [[0, node]]),
+            ('MOR-first-same-tag-as-child', M.MOR(**{tname(0): inner(), tname(1): ...}), ['mor', [[0, J], [1, ['wild']]]], [[0, node]]),
+            ('MAND-same-tag-as-child', M.MAND(**{tname(0): inner()}), ['mand', [[0, J]]], [[0, node]]),
+            ('MMAYBE-same-tag-as-child', M.MMAYBE(**{tname(0): inner()}), ['mmaybe', J, 0, []], [[0, node]]),
+            ('MAND-later-member-rebinds', M.MAND(inner(), **{tname(0): ...}), ['mand', [[None, J], [0, ['wild']]]], [[0, node]]),
+        ]
     return out
 
 
